@@ -185,6 +185,8 @@ theorem prefix_scopeOk {b b' : Builder} (h : ScopeOk b) (p : Str) (u : StrSpan) 
   split at hr
   · cases hr
   · rename_i us _
+    split at hr
+    · cases hr
     dsimp only at hr
     split at hr
     · cases hr
@@ -412,7 +414,10 @@ theorem step_scopeOk {b b' : Builder} (t : Token) (h : ScopeOk b) (hr : b.step t
     subst hr
     exact scopeOk_of_same h rfl rfl rfl rfl
   | pi target content sp =>
-    simp only [Builder.step, Builder.processingInstruction, Step.ok.injEq] at hr
+    simp only [Builder.step] at hr
+    split at hr
+    · cases hr
+    simp only [Builder.processingInstruction, Step.ok.injEq] at hr
     subst hr
     exact scopeOk_of_same h rfl rfl rfl rfl
   | declaration v e s sp =>
